@@ -77,6 +77,18 @@ func c14Gen(r *rand.Rand) *c14Case {
 		c.Versions[k-1] = c.Versions[k-2] // repeat: must be a no-op
 		c.Years[k-1] = c.Years[k-2]
 	}
+	if core.Chance(r, 1, 3) {
+		// related versions in the same year: one is a textual prefix of the other (release candidate -> release,
+		// build metadata dropped, two-component form), so nothing but the version markers tells the runs apart
+		fam := core.Pick(r, []string{"4.6.0-rc1", "4.6.0", "4.6"}, []string{"4.6.0+build.7", "4.6.0", "4.6.0-rc.2"}, []string{"v4.6.0", "v4.6", "v4.6.0-RC1"}, []string{"4.6", "4.6.0", "4.6.0-dev"}, []string{"5.0.0-alpha-1", "5.0.0-alpha", "5.0.0"})
+		c.V0 = fam[0]
+		c.Y0 = "2025"
+		c.Versions, c.Years = nil, nil
+		for _, i := range r.Perm(len(fam))[:1+r.Intn(len(fam))] {
+			c.Versions = append(c.Versions, fam[i])
+			c.Years = append(c.Years, "2025")
+		}
+	}
 	text := func() c14Line {
 		return c14Line{"text", core.Pick(r,
 			"#", "# some comment", "", "SecRule REQUEST_URI \"@rx foo\" \\", "    \"id:920100,\\", "    phase:1,\\", "    block,\\",
